@@ -252,6 +252,14 @@ class FindIdentifiers(_ast_util.NodeVisitor):
                 self._add_declared(name.name)
 
 
+def _is_default_escape(node):
+    from mako import filters
+
+    while isinstance(node, _ast.Attribute):
+        node = node.value
+    return isinstance(node, _ast.Name) and node.id in filters.DEFAULT_ESCAPES
+
+
 class FindTuple(_ast_util.NodeVisitor):
     def __init__(self, listener, code_factory, **exception_kwargs):
         self.listener = listener
@@ -267,6 +275,9 @@ class FindTuple(_ast_util.NodeVisitor):
             self.listener.declared_identifiers = ldi.union(
                 p.declared_identifiers
             )
+            if _is_default_escape(n):
+                # "h", "decode.utf8": the name of a built-in filter
+                continue
             lui = self.listener.undeclared_identifiers
             self.listener.undeclared_identifiers = lui.union(
                 p.undeclared_identifiers.difference(p.declared_identifiers)
